@@ -129,9 +129,15 @@ def k2_closure_int(vals: List[Optional[int]], via_dict: bool) -> bool:
     return r is None or (r.failures == 0 and all(bool(v) for v in r.fields['c'].values()))
 
 
+@rt.known_class('C08.nul-text-length')
+def _k_nul(vals, *rest):
+    return any(v is not None and '\x00' in v for v in vals)
+
+
 def k2_closure_text(vals: List[Optional[str]], inc_rex: bool, via_dict: bool) -> bool:
     """
     pre: len(vals) <= P['rows'] and all(v is None or len(v) <= P['nc'] for v in vals)
+    pre: rt.admit(['C08.nul-text-length'], vals)
     post: __return__
     """
     d, r = _disco_verify('TEXT', vals, [], inc_rex, via_dict)
@@ -210,6 +216,7 @@ def k2_extra_row_text(vals: List[Optional[str]], x: Optional[str]) -> bool:
     """
     pre: 1 <= len(vals) <= P['rows'] and all(v is None or len(v) <= 1 for v in vals)
     pre: x is None or len(x) <= 2
+    pre: rt.admit(['C08.nul-text-length'], list(vals) + [x])
     post: __return__
     """
     d, r = _disco_verify('TEXT', vals, [x], False, False)
@@ -292,7 +299,7 @@ def _obs():
         obs.append(Ob('K2', 'k2_closure_text', 'constraints discovered from a TEXT column (with or without rex) verify '
                       'against it, empty and all-NULL columns and any text content included',
                       '<=%d rows of symbolic strings len<=%d or NULL' % (rows, nc), param={'rows': rows, 'nc': nc},
-                      timeout=to, tier=tier,
+                      timeout=to, tier=tier, known=['C08.nul-text-length'],
                       stubs=['sqldouble', 'rexpy.extract -> expressions that match by assumption (C03)']))
     for rows, tier, to in ((2, Q, 400), (3, T, 3000)):
         obs.append(Ob('K2', 'k2_extra_row_int', 'after discovery, one added row makes verification report a discovered '
@@ -303,7 +310,8 @@ def _obs():
         obs.append(Ob('K2', 'k2_extra_row_text', 'after discovery, one added row makes verification report a discovered '
                       'constraint failed exactly when the row breaks it (shorter/longer string, new category, '
                       'duplicate, extra null)', 'TEXT column of 1..%d rows of strings len<=1 + one extra string len<=2 '
-                      'or NULL' % rows, param={'rows': rows}, timeout=to, tier=tier, stubs=['sqldouble']))
+                      'or NULL' % rows, param={'rows': rows}, timeout=to, tier=tier, stubs=['sqldouble'],
+                      known=['C08.nul-text-length']))
     obs.append(Ob('K2', 'k2_extra_row_bool', 'after discovery on a BOOLEAN column, one added row makes verification '
                   'report min/max/sign/max_nulls failed exactly when the row breaks them',
                   'BOOLEAN column of 1..3 rows of 0/1/NULL + one extra value', param={'rows': 3}, timeout=400,
